@@ -1,10 +1,26 @@
 (* ConvergeLoop.v - C08: the closed loop.  From every live world that satisfies the invariant, with a transport that
    works and a truthful cache that answers the client's queries and is otherwise silent, the client is synchronised
-   after at most 8 iterations of the state machine and within recovery_bound of protocol time.
-   (Statement: Rtr/ConvergeProofs.v [C08_converge_full]; see the end of this file for the one hypothesis added.) *)
+   after at most 8 iterations of the state machine and within max(refresh_iv, 60 + retry_iv) <= recovery_bound of
+   protocol time; the records of other sources are where they were.
+
+   Statement: Rtr/ConvergeProofs.v [C08_converge_full].  As written there it is false (C08_converge_full_false below):
+   Inv does not bound refresh_interval from below, and with a negative refresh_interval recovery_bound is negative.
+   The repair is ONE added hypothesis, 0 <= refresh_iv (sk w) (C08_converge_full_repaired, proved:
+   C08_converge_full_holds); Rtr/RefreshInv.v proves that it holds in every world run_fsm reaches from rtr_init
+   (converge_reachable below needs neither Inv nor the added hypothesis).  The theorem actually proved, converge_loop,
+   is stronger in every other respect: 8 iterations instead of 16, one entry of the open script instead of 16,
+   silence > loop_bound instead of 16 * recovery_bound, time <= loop_bound <= recovery_bound.
+
+   How: reach_sync / one_good_exchange of ConvergeProofs.v speak about run_fsm on a script that already holds the
+   answer; here every step lemma is restated for fsm_step with what it keeps (qstep: script, clock, version, the
+   client's data and its pointer into the cache's history - or a Reset Query is due), and the iterations are glued with
+   [reaches] (run_with_cache n, continuing).  After the first answer has been put on the script the invariant Inv is
+   no longer available (env_ok: cache_ok does not promise that data PDUs consist of bytes); Rtr/ConvergeWeak.v has
+   the exchange theorems under the part of Inv they use. *)
 From Coq Require Import Permutation.
 From RtrV Require Import Base.CSem Gen.Generated Rtr.RtrModel Rtr.RelFrame Rtr.ExpiryTac Rtr.SyncSets Rtr.ExpiryFrames
-  Rtr.ExpirySync Rtr.ConvergeStutter Rtr.ExpiryProofs Rtr.CacheSpec Rtr.ConvergeRecv Rtr.ConvergeProofs Rtr.ConvergeWeak.
+  Rtr.ExpirySync Rtr.ConvergeStutter Rtr.ExpiryProofs Rtr.CacheSpec Rtr.ConvergeRecv Rtr.ConvergeProofs Rtr.ConvergeWeak
+  Rtr.RefreshInv.
 Local Open Scope Z_scope.
 
 (* ---------- run_with_cache, one iteration at a time ---------- *)
@@ -426,9 +442,9 @@ Proof.
 Qed.
 
 (* The repair: the hypothesis 0 <= refresh_iv (sk w).  It holds in every world the client can be in: rtr_init accepts
-   refresh_interval in [1, 86400] only (init_ok, Rtr/IntervalProofs.v init_ok_ranges) and the only assignment
-   (apply_eod_intervals) stores a 32-bit field of a received PDU, a bound of the range, or the old value
-   (see Rtr/RefreshInv.v: run_fsm keeps it).  Everything else is as in C08_converge_full. *)
+   refresh_interval in [1, 86400] only (init_ok) and the only assignment (apply_eod_intervals) stores a 32-bit field
+   of a received PDU, a bound of the range, or the old value: Rtr/RefreshInv.v run_fsm_refresh / reachable_refresh.
+   Everything else is as in C08_converge_full. *)
 Definition C08_converge_full_repaired : Prop :=
   forall (c : cache) (f : nat) (w : world) (silence : Z),
     cache_ok c -> Inv w -> live w -> version (sk w) = c_ver c -> snapshot_hyp c w ->
@@ -460,6 +476,14 @@ Definition lp_w0 : world :=
 Lemma lp_w0_Inv : Inv lp_w0.
 Proof. apply Inv_start; try (constructor; fail); try reflexivity; [lia|]. constructor; [cbn [ev_ok]; lia|constructor]. Qed.
 
+Ltac by_computation :=
+  repeat match goal with
+         | |- _ /\ _ => split
+         | |- Permutation _ _ => vm_compute; apply Permutation_refl
+         | |- _ <= _ => vm_compute; discriminate
+         | |- _ = _ => vm_compute; reflexivity
+         end.
+
 Example converge_loop_example_connecting :
   (cache_ok ex_cache /\ Inv lp_w0 /\ live lp_w0 /\ version (sk lp_w0) = c_ver ex_cache /\ snapshot_hyp ex_cache lp_w0 /\
    0 <= refresh_iv (sk lp_w0) /\ (forall k, nth k (opens lp_w0) true = true) /\ (16 <= List.length (opens lp_w0))%nat /\
@@ -467,21 +491,149 @@ Example converge_loop_example_connecting :
   (let w' := run_with_cache 3 4 ex_cache lp_w0 in
    converged ex_cache 0 lp_w0 w' /\ pfx w' = [prec_of_pdu ex_PA] /\ serial (sk w') = 5 /\ now w' = 1000).
 Proof.
-  assert (Hsn : snapshot_hyp ex_cache lp_w0) by (intros old Hq; discriminate Hq).
   split.
-  { split; [exact ex_cache_ok|]. split; [exact lp_w0_Inv|]. split; [reflexivity|]. split; [reflexivity|]. split; [exact Hsn|].
+  { split; [exact ex_cache_ok|]. split; [exact lp_w0_Inv|]. split; [reflexivity|]. split; [reflexivity|].
+    split; [intros old Hq; discriminate Hq|].
     split; [vm_compute; discriminate|]. split; [exact all_true_16|]. split; [cbn; lia|]. split; [reflexivity|]. split; [reflexivity|].
     vm_compute. reflexivity. }
-  destruct (converge_loop ex_cache 3 lp_w0 100000 ex_cache_ok lp_w0_Inv eq_refl eq_refl Hsn (proj1 ex_cache_sizes) (proj2 ex_cache_sizes)
-              ltac:(vm_compute; discriminate) all_true_16 ltac:(cbn; lia) eq_refl eq_refl ltac:(vm_compute; reflexivity))
-    as (n & Hn & Sy & Ht & OP & OK).
-  cbv zeta. set (w3 := run_with_cache 3 4 ex_cache lp_w0).
-  (* the theorem's witness is the third iteration: before that the state is not ESTABLISHED *)
-  assert (En : run_with_cache n 4 ex_cache lp_w0 = w3 \/ st (sk (run_with_cache n 4 ex_cache lp_w0)) <> c_RTR_ESTABLISHED).
-  { do 3 (destruct n as [|n]; [right; vm_compute; discriminate|]). destruct n as [|n]; [left; reflexivity|].
-    do 5 (destruct n as [|n]; [right; vm_compute; discriminate|]). lia. }
-  destruct En as [En|En]; [|exfalso; apply En, Sy].
-  rewrite En in Sy, Ht, OP, OK.
-  split; [split; [exact Sy|]; split; [vm_compute; discriminate|]; split; assumption|].
-  vm_compute. auto.
+  cbv zeta. unfold converged, synced. by_computation.
 Qed.
+
+(* all hypotheses of C08_converge_full_repaired in one place *)
+Definition loop_hyps (c : cache) (f : nat) (w : world) (silence : Z) : Prop :=
+  cache_ok c /\ Inv w /\ live w /\ version (sk w) = c_ver c /\ snapshot_hyp c w /\
+  (List.length (c_data c) < f)%nat /\ (forall k old, In (k, old) (c_hist c) -> (List.length (delta_pdus old (c_data c)) < f)%nat) /\
+  0 <= refresh_iv (sk w) /\
+  (forall k, nth k (opens w) true = true) /\ (16 <= List.length (opens w))%nat /\ sends w = [] /\
+  evs w = [EvWait silence] /\ 16 * recovery_bound (sk w) < silence.
+
+Theorem loop_hyps_converge c f w silence : loop_hyps c f w silence ->
+  exists n, (n <= 8)%nat /\ converged c (loop_bound (sk w)) w (run_with_cache n (S f) c w).
+Proof.
+  intros (Hc & HI & Hl & Hv & Hsn & Hf & Hfd & Hrf & Hon & Hol & Hs & Hev & Hsil).
+  pose proof HI as ((_ & Tr & _) & _). destruct (loop_bound_le (sk w) Hrf Tr) as (B0 & B1).
+  apply (converge_loop c f w silence); auto; lia.
+Qed.
+
+(* (2) ESTABLISHED with the data of serial 5; the cache has moved on to serial 6 and remembers 5: the refresh timer runs
+       out, the Serial Query is answered with the delta.  snapshot_hyp is not vacuous here.
+   (3) the same client, a cache with another session id: Cache Reset, then the full reload - 5 iterations.
+   (4) SYNC and the answer never comes: receive timeout, ERROR_TRANSPORT, retry sleep, reconnect, RESET, SYNC, answered. *)
+Definition lp_est : world :=
+  run_fsm 3 100 (start_world 3600 7200 600 0 [] [] [EvData (ex_CR ++ ex_PA ++ ex_EOD); EvWait 100000] (repeat true 17) [] []).
+Definition lp_sync : world :=
+  run_fsm 2 100 (start_world 3600 7200 600 0 [] [] [EvWait 100000] (repeat true 17) [] []).
+Definition ex_cache6 : cache := mkCache 1 42 6 [ex_PA; ex_PB] [(5, [ex_PA]); (6, [ex_PA; ex_PB])] ex_tail.
+Definition ex_cache43 : cache := mkCache 1 43 1 [ex_PB] [(1, [ex_PB])] ex_tail.
+
+Lemma lp_est_Inv : Inv lp_est.
+Proof.
+  apply run_fsm_Inv, Inv_start; try (constructor; fail); try reflexivity; [lia|].
+  unfold ex_CR, ex_PA, ex_EOD. cbn [app].
+  repeat first [apply Forall_nil | apply Forall_cons; [cbn [ev_ok]|]].
+  all: try exact I; try lia; try (unfold byte_ok; lia).
+Qed.
+Lemma lp_sync_Inv : Inv lp_sync.
+Proof.
+  apply run_fsm_Inv, Inv_start; try (constructor; fail); try reflexivity; [lia|]. constructor; [cbn [ev_ok]; lia|constructor].
+Qed.
+
+Lemma ex_dataset_PAB : dataset_ok 1 [ex_PA; ex_PB].
+Proof.
+  split; [constructor; [exact ex_PA_ok|constructor; [exact ex_PB_ok|constructor]]|].
+  split; vm_compute; [|constructor].
+  constructor; [intros [H|[]]; discriminate H|]. constructor; [intros []|constructor].
+Qed.
+Lemma ex_dataset_PB : dataset_ok 1 [ex_PB].
+Proof. split; [constructor; [exact ex_PB_ok|constructor]|]. split; vm_compute; repeat constructor. intros []. Qed.
+
+Lemma ex_cache6_ok : cache_ok ex_cache6.
+Proof.
+  unfold cache_ok. cbn [c_ver c_session c_serial c_data c_hist c_eod_tail ex_cache6].
+  split; [right; reflexivity|]. split; [lia|]. split; [lia|]. split; [exact ex_dataset_PAB|].
+  split; [constructor; [exact ex_dataset_PA|constructor; [exact ex_dataset_PAB|constructor]]|].
+  split; [unfold pdu_ok; pdu_facts|].
+  unfold ex_tail. repeat (apply Forall_cons; [lia|]). apply Forall_nil.
+Qed.
+Lemma ex_cache43_ok : cache_ok ex_cache43.
+Proof.
+  unfold cache_ok. cbn [c_ver c_session c_serial c_data c_hist c_eod_tail ex_cache43].
+  split; [right; reflexivity|]. split; [lia|]. split; [lia|]. split; [exact ex_dataset_PB|].
+  split; [constructor; [exact ex_dataset_PB|constructor]|].
+  split; [unfold pdu_ok; pdu_facts|].
+  unfold ex_tail. repeat (apply Forall_cons; [lia|]). apply Forall_nil.
+Qed.
+
+Ltac opens16 := match goal with |- forall k, nth k (opens ?w) true = true =>
+  let E := fresh in assert (E : opens w = repeat true 16) by (vm_compute; reflexivity); rewrite E; exact all_true_16 end.
+
+Example converge_loop_example_established :
+  loop_hyps ex_cache6 3 lp_est 100000 /\
+  (let w' := run_with_cache 2 4 ex_cache6 lp_est in
+   converged ex_cache6 3600 lp_est w' /\ pfx w' = [prec_of_pdu ex_PA; prec_of_pdu ex_PB] /\ serial (sk w') = 6 /\ now w' = 4600).
+Proof.
+  split.
+  { split; [exact ex_cache6_ok|]. split; [exact lp_est_Inv|]. split; [vm_compute; reflexivity|]. split; [vm_compute; reflexivity|].
+    split.
+    { intros old Hq Hs Hl. vm_compute in Hl. injection Hl as <-. split; vm_compute; apply Permutation_refl. }
+    split; [vm_compute; lia|].
+    split; [intros k old [E|[E|[]]]; inversion E; subst; vm_compute; lia|].
+    split; [vm_compute; discriminate|]. split; [opens16|]. split; [vm_compute; lia|].
+    split; [vm_compute; reflexivity|]. split; [vm_compute; reflexivity|]. vm_compute. reflexivity. }
+  cbv zeta. unfold converged, synced. by_computation.
+Qed.
+
+Example converge_loop_example_cache_reset :
+  loop_hyps ex_cache43 3 lp_est 100000 /\
+  (let w' := run_with_cache 5 4 ex_cache43 lp_est in
+   converged ex_cache43 3600 lp_est w' /\ pfx w' = [prec_of_pdu ex_PB] /\ session_id (sk w') = 43 /\ serial (sk w') = 1 /\ now w' = 4600).
+Proof.
+  split.
+  { split; [exact ex_cache43_ok|]. split; [exact lp_est_Inv|]. split; [vm_compute; reflexivity|]. split; [vm_compute; reflexivity|].
+    split; [intros old Hq Hs; vm_compute in Hs; discriminate Hs|].
+    split; [vm_compute; lia|].
+    split; [intros k old [E|[]]; inversion E; subst; vm_compute; lia|].
+    split; [vm_compute; discriminate|]. split; [opens16|]. split; [vm_compute; lia|].
+    split; [vm_compute; reflexivity|]. split; [vm_compute; reflexivity|]. vm_compute. reflexivity. }
+  cbv zeta. unfold converged, synced. by_computation.
+Qed.
+
+Example converge_loop_example_sync_silent :
+  loop_hyps ex_cache 3 lp_sync 100000 /\
+  (let w' := run_with_cache 5 4 ex_cache lp_sync in
+   converged ex_cache 660 lp_sync w' /\ pfx w' = [prec_of_pdu ex_PA] /\ serial (sk w') = 5 /\ now w' = 1660).
+Proof.
+  split.
+  { split; [exact ex_cache_ok|]. split; [exact lp_sync_Inv|]. split; [vm_compute; reflexivity|]. split; [vm_compute; reflexivity|].
+    split; [intros old Hq; vm_compute in Hq; discriminate Hq|].
+    split; [apply ex_cache_sizes|]. split; [apply ex_cache_sizes|].
+    split; [vm_compute; discriminate|]. split; [opens16|]. split; [vm_compute; lia|].
+    split; [vm_compute; reflexivity|]. split; [vm_compute; reflexivity|]. vm_compute. reflexivity. }
+  cbv zeta. unfold converged, synced. by_computation.
+Qed.
+
+(* ---------- from rtr_init: neither Inv nor the bound on refresh_interval has to be assumed ---------- *)
+Theorem converge_reachable (c : cache) (f : nat) (silence : Z) n fuel refresh expire retry mode P K0 es os ss o :
+  init_ok refresh expire retry = true ->
+  Forall ev_ok es -> NoDup P -> NoDup K0 -> own_p P = [] -> own_k K0 = [] ->
+  let w := run_fsm n fuel (start_world refresh expire retry mode P K0 es os ss o) in
+  cache_ok c -> live w -> version (sk w) = c_ver c -> snapshot_hyp c w ->
+  (List.length (c_data c) < f)%nat -> (forall k old, In (k, old) (c_hist c) -> (List.length (delta_pdus old (c_data c)) < f)%nat) ->
+  (forall k, nth k (opens w) true = true) -> (1 <= List.length (opens w))%nat -> sends w = [] ->
+  evs w = [EvWait silence] -> loop_bound (sk w) < silence ->
+  exists m, (m <= 8)%nat /\ converged c (loop_bound (sk w)) w (run_with_cache m (S f) c w).
+Proof.
+  intros Hi He HP HK Ho1 Ho2 w Hc Hl Hv Hsn Hf Hfd Hon Hol Hs Hev Hsil.
+  destruct (reachable_refresh n fuel refresh expire retry mode P K0 es os ss o Hi He HP HK Ho1 Ho2) as (HI & Hrf).
+  fold w in HI, Hrf. apply (converge_loop c f w silence); assumption.
+Qed.
+
+Print Assumptions converge_loop.
+Print Assumptions C08_converge_full_holds.
+Print Assumptions C08_converge_full_false.
+Print Assumptions loop_hyps_converge.
+Print Assumptions converge_loop_example_connecting.
+Print Assumptions converge_loop_example_established.
+Print Assumptions converge_loop_example_cache_reset.
+Print Assumptions converge_loop_example_sync_silent.
+Print Assumptions converge_reachable.
